@@ -172,7 +172,9 @@ func main() {
 		fmt.Println("no violation")
 		return
 	}
-	segAlphabet := []string{root, root + "er", "sea", "api"}
+	// (two context segments carry percent-escapes - an escaped slash, space, '#', '?' and '%': the context path is
+	// escaped text and must come out as it went in)
+	segAlphabet := []string{root, root + "er", "sea", "api", "a%2Fb", "x%20y%23z%3F%25"}
 	maxSeg := 3
 	if a.Thorough() {
 		// more ways to resemble the root name, one more level
